@@ -98,6 +98,8 @@ def r1_index(text: str, receivers: Dict[str, str]) -> Tuple[str, int]:
                     continue
                 if kind == "node":
                     rep = f"(*{name}.node({inner}))"
+                elif kind == "node_raw":
+                    rep = f"(*{name}.node_raw({inner}))"
                 elif kind == "str":
                     rep = f"(*{name}.str_at({inner}))"
                 elif kind == "map":
